@@ -13,8 +13,8 @@ pub fn check() -> Check {
     Check {
         id: "C13",
         level: "exploration",
-        rule: "steps: a seeded program (all families, shuttle::rand draws, reset_step_count at drawn points) is first run unbounded under a seeded SimSched to learn its step profile, then with FailAfter(n) / ContinueAfter(n) for n drawn from [L-3, L+3] and {1,2} and 1-3 executions; the recorder counts decisions+draws since the last reset: never more than n; fewer than n needed => identical to the unbounded run; more than n needed => max-steps failure naming n (FailAfter) or silent abandonment with the run going on (ContinueAfter); Runner::run returns the number of executions started. iterations: every built-in scheduler with an iteration budget 0..20 (and a large / zero max_time) invokes the body exactly budget times. Distinct = (program, n, mode, chosen sequence); non-trivial = bound within 3 of the program's length",
-        assumptions: &["max_time reads the real clock, which the simulator does not own: only clock-independent facts are asserted (a large limit changes nothing; a zero limit never increases the count)", "at exactly n needed steps either outcome is accepted (the property speaks of 'more than' and 'fewer than')"],
+        rule: "steps: a seeded program (all families, shuttle::rand draws, reset_step_count at drawn points) is first run unbounded under a seeded SimSched to learn its step profile, then with FailAfter(n) / ContinueAfter(n) for n drawn from [L-3, L+3] and {1,2} and 1-3 executions; the recorder counts decisions+draws since the last reset: never more than n; fewer than n needed => identical to the unbounded run; more than n needed => max-steps failure naming n (FailAfter) or silent abandonment with the run going on (ContinueAfter); Runner::run returns the number of executions started. iterations: every built-in scheduler with an iteration budget 0..20 (and a large / zero / certainly-exceeded max_time) invokes the body exactly budget times. Distinct = (program, n, mode, chosen sequence); non-trivial = bound within 3 of the program's length",
+        assumptions: &["max_time reads the real clock, which the simulator does not own: only facts that do not depend on how fast the clock runs are asserted (a large limit changes nothing; a zero limit never increases the count; when the first iteration provably outlasts a 2 ms limit - it spins until 3 ms have passed - no second iteration starts)", "at exactly n needed steps either outcome is accepted (the property speaks of 'more than' and 'fewer than')"],
         real_components: "real: shuttle-engine runtime (ExecutionState::schedule step-bound logic, Runner loop), all built-in schedulers; stub: none",
         batches: |t: Tier| vec![Batch::new("steps", t.pick(12000, 250000), 300), Batch::new("iterations", t.pick(1500, 20000), 100)],
         run,
@@ -285,15 +285,34 @@ fn run_iterations(seed: u64, out: &mut RunOut) {
         _ => SchedKind::RoundRobin(b),
     };
     let mut c = quiet_config();
-    let time_mode = rng.below(3);
+    let time_mode = rng.below(4);
     c.max_time = match time_mode {
         0 => None,
         1 => Some(std::time::Duration::from_secs(3600)),
-        _ => Some(std::time::Duration::from_secs(0)),
+        2 => Some(std::time::Duration::from_secs(0)),
+        // the limit certainly elapses during the first iteration (see below)
+        _ => Some(std::time::Duration::from_millis(2)),
     };
     let p2 = prog.clone();
     let _ = take_monitor_violations();
-    let (ending, rt) = run_recorded(build(&kind), c, move || run_program(&p2));
+    // time_mode 3: the first iteration does not return before 3 ms of real time have passed since
+    // it started (hence > 2 ms since the run started). The real clock is not owned by the
+    // simulator, but the verdict only depends on a LOWER bound of the elapsed time, so it is the
+    // same on every machine and under every load: no second iteration may start.
+    let first_started: Arc<std::sync::Mutex<Option<std::time::Instant>>> = Arc::new(std::sync::Mutex::new(None));
+    let (ending, rt) = run_recorded(build(&kind), c, move || {
+        if time_mode == 3 {
+            let mut g = first_started.lock().unwrap();
+            if g.is_none() {
+                let t1 = std::time::Instant::now();
+                *g = Some(t1);
+                while t1.elapsed() < std::time::Duration::from_millis(3) {
+                    std::hint::spin_loop();
+                }
+            }
+        }
+        run_program(&p2)
+    });
     let _ = take_monitor_violations();
     out.evals += rt.execs.len() as u64;
     let cj = json!({"iter_seed": seed});
@@ -304,7 +323,14 @@ fn run_iterations(seed: u64, out: &mut RunOut) {
                 out.violation("C13:run-count", format!("{:?}: returned {} but {} executions ran", kind, n, rt.execs.len()), cj.clone());
             }
             let is_dfs = matches!(kind, SchedKind::Dfs(_));
-            if time_mode != 2 {
+            if time_mode == 3 {
+                if n > 1 {
+                    out.violation("C13:iteration-started-after-the-time-limit", format!("{:?}: budget {}, max_time 2 ms, the first iteration took >= 3 ms, yet the body ran {} times", kind, b, n), cj.clone());
+                }
+                if n == 0 && b > 0 {
+                    out.violation("C13:iteration-budget", format!("{:?}: budget {} and a 2 ms time limit, but the body never ran", kind, b), cj.clone());
+                }
+            } else if time_mode != 2 {
                 if (!is_dfs && n != b) || (is_dfs && (n > b || (b > 0 && n == 0))) {
                     out.violation("C13:iteration-budget", format!("{:?}: budget {} but the body ran {} times", kind, b, n), cj.clone());
                 }
